@@ -383,6 +383,25 @@ fn conversions(e: &str, paths: &[String]) -> String {
             format!("{}", ms.join(" ; "))
         })
         .unwrap_or_else(|e| error_line(&e));
+    // a combinator exposes ONE capture, the group of its alternatives: capture 1 is the complete text and nothing lies beyond it
+    let caps_of = |a: &Any<'_>, p: &str| -> Option<String> {
+        let c = CandidatePath::from(p);
+        let m = a.matched(&c)?;
+        let want = |i: usize| if i <= 1 { Some(p.to_string()) } else { None };
+        let owned = m.to_owned();
+        let bad: Vec<String> = (0..=n + 3)
+            .filter(|i| m.get(*i).map(String::from) != want(*i) || owned.get(*i).map(String::from) != want(*i))
+            .map(|i| format!("{}:{}", i, m.get(i).map(|s| hex(s)).unwrap_or_else(|| "n".into())))
+            .collect();
+        if bad.is_empty() { None } else { Some(format!("{}@{}", bad.join(","), hex(p))) }
+    };
+    let mut cap_bad: Vec<String> = vec![];
+    if let Ok(a) = wax::any([e]) { cap_bad.extend(paths.iter().filter_map(|p| caps_of(&a, p)).map(|x| format!("text:{}", x))); }
+    if let Ok(a) = wax::any([g.clone()]) { cap_bad.extend(paths.iter().filter_map(|p| caps_of(&a, p)).map(|x| format!("compiled:{}", x))); }
+    if let Ok(a) = wax::any([g.clone().into_owned()]) { cap_bad.extend(paths.iter().filter_map(|p| caps_of(&a, p)).map(|x| format!("owned:{}", x))); }
+    if let Ok(a) = wax::any([e, e]) { cap_bad.extend(paths.iter().filter_map(|p| caps_of(&a, p)).map(|x| format!("twice:{}", x))); }
+    if let Ok(a) = wax::any([e]).and_then(|i| wax::any([i])) { cap_bad.extend(paths.iter().filter_map(|p| caps_of(&a, p)).map(|x| format!("nested:{}", x))); }
+    out.push(format!("any-caps={}", if cap_bad.is_empty() { "one".to_string() } else { format!("DIFF<{}>", cap_bad[0]) }));
     out.push(format!("any-compiled={}", if a_comp == a_text { "same".to_string() } else { format!("DIFF<{}>", a_comp) }));
     // a nested combinator wraps the tree once more; only behaviour is compared
     let a_text_ms = a_text.split(" || ").nth(1).unwrap_or("").to_string();
@@ -573,6 +592,51 @@ fn main() {
                         }
                         out.join(" ")
                     },
+                }
+            },
+            "XH" => {
+                // history independence: a value that has ANSWERED its queries and is then partitioned, re-owned, cloned or
+                // combined behaves like one that was never asked (`<route>=<summary>`, `queried-<route>=same|DIFF<summary>`)
+                let e = arg(0);
+                fn summary<'t, P: Program<'t>>(p: &P, pat: &str) -> String {
+                    format!("{}|{}", queries(p).replace(' ', "|"), hex(pat))
+                }
+                let ask_all = |g: &Glob<'_>| {
+                    let _ = q(|| g.depth(), |_| String::new());
+                    let _ = q(|| g.text(), |_| String::new());
+                    let _ = q(|| g.is_exhaustive(), |_| String::new());
+                    let _ = q(|| g.has_root(), |_| String::new());
+                    let _ = g.captures().count();
+                    let _ = g.is_match(CandidatePath::from("a/b"));
+                };
+                match (Glob::new(&e), Glob::new(&e)) {
+                    (Ok(fresh), Ok(asked)) => {
+                        ask_all(&asked);
+                        let mut out = vec![];
+                        let mut both = |name: &str, a: String, b: String| {
+                            out.push(format!("{}={}", name, a));
+                            out.push(format!("queried-{}={}", name, if a == b { "same".to_string() } else { format!("DIFF<{}>", b) }));
+                        };
+                        let post = |g: Glob<'_>| match g.partition().1 {
+                            Some(p) => summary(&p, p.verif_pattern()),
+                            None => "none".to_string(),
+                        };
+                        both("partition", q(|| post(fresh.clone()), |x| x), q(|| post(asked.clone()), |x| x));
+                        let owned = |g: Glob<'_>| { let o = g.into_owned(); summary(&o, o.verif_pattern()) };
+                        both("into-owned", q(|| owned(fresh.clone()), |x| x), q(|| owned(asked.clone()), |x| x));
+                        let any1 = |g: Glob<'_>| match wax::any([g]) { Ok(a) => summary(&a, a.verif_pattern()), Err(_) => "err".to_string() };
+                        both("any", q(|| any1(fresh.clone()), |x| x), q(|| any1(asked.clone()), |x| x));
+                        let owned_post = |g: Glob<'_>| post(g.into_owned());
+                        both("owned-partition", q(|| owned_post(fresh.clone()), |x| x), q(|| owned_post(asked.clone()), |x| x));
+                        // the postfix asked, then partitioned again / re-owned
+                        let twice = |g: Glob<'_>, ask: bool| match g.partition().1 {
+                            Some(p) => { if ask { ask_all(&p); } let o = p.into_owned(); summary(&o, o.verif_pattern()) },
+                            None => "none".to_string(),
+                        };
+                        both("postfix-owned", q(|| twice(fresh.clone(), false), |x| x), q(|| twice(asked.clone(), true), |x| x));
+                        out.join(" ")
+                    },
+                    _ => "err".to_string(),
                 }
             },
             "A" | "AC" | "AN" | "AO" => {
